@@ -124,6 +124,11 @@ func runC06(w *W) {
 	w.genAlign([]int{0, 31, 62, 63, 64, 65, 127, 128}, []int{1407, 1408, 1409, 2816}, judge)
 	w.genAlignLarge([]int{64 << 10}, judge)
 	w.genBoundaryPairs(judge)
+	w.genFillBlock(fillStep(w), judge)
+	w.genBufferFill(judge)
+	w.genSpaceInDense([]int{1500, 9000}, judge)
+	w.genAlignedPartial(10, 110, 3, judge)
+	w.genAlignedPartial(130, 180, 2, judge)
 	// tail-focused: every length 1..512 with interesting bytes at each of the last 64 positions
 	interesting := []byte{'"', '\\', '\n', '{', '}', '[', ']', ',', ':', 0x1f, 0x80, ' ', 'a'}
 	i := 0
